@@ -12,7 +12,7 @@ reg("C40",
          "script families (racy rounds with 1-2 concurrent challengers overlapping replication, everything outstanding "
          "at once, random staggered actions), every scheduler decision drawn from VERIF_SEED (exactly replayable), plus "
          "the complete enumeration (simulator `exhaustive`) of a 1-election/1-request/2-heartbeat scenario. Paxos "
-         "(paxos_core, 2-3 proposers, 3 acceptors): 1 500 / 60 000 schedules of 500 scheduler decisions (ticks, "
+         "(paxos_core, 2-3 proposers, 3 acceptors): 1 500 / 30 000 schedules of 500 scheduler decisions (ticks, "
          "per-channel FIFO deliveries, paused-clock advances racing the 1 s/2 s timers, client payloads, leader stalls). "
          "Oracle: for all members a,b and log positions i the committed entries agree whenever both are defined, and no "
          "member ever emits a different entry for a position it already committed.",
